@@ -18,6 +18,7 @@ inductive XTag
   | curTask | cancelTask | cancelTaskSkip | startSkip | dlvEndSkip   -- T<i> X<i> X<i>:skip S<j>:skip dlvU:skip
   | blockStart | blockEnd | auto | autoWk | autoDrop | deadlock       -- block.start block.end auto<k> autowk<n> autodrop<n> deadlock
   -- unit stream built-ins
+  | detach | detachNone | detachDrop         -- det<k> det<k>:none detdrop<k>
   | panicAt                                 -- @panic (the point where a Rust panic started)
   | usNew | usRead | usWrite | usCancelRead | usCancelWrite | usDropR | usDropW
 deriving DecidableEq, Repr
@@ -36,6 +37,7 @@ def XTag.fmt : XTag → List Nat → String
   | .blockStart, [] => "block.start" | .blockEnd, [] => "block.end"
   | .auto, [k] => s!"auto{k}" | .autoWk, [n] => s!"autowk{n}" | .autoDrop, [n] => s!"autodrop{n}"
   | .deadlock, [] => "deadlock" | .panicAt, [] => "@panic"
+  | .detach, [k] => s!"det{k}" | .detachNone, [k] => s!"det{k}:none" | .detachDrop, [k] => s!"detdrop{k}"
   | .usNew, [r, w] => s!"us.new={r}:{w}" | .usRead, [h, c] => s!"us.read({h})={c}"
   | .usWrite, [h, c] => s!"us.write({h})={c}" | .usCancelRead, [h, c] => s!"us.cancel-read({h})={c}"
   | .usCancelWrite, [h, c] => s!"us.cancel-write({h})={c}"
@@ -68,6 +70,7 @@ def XTag.parse (name : String) (nums : List Nat) (rest : String) : Option (XTag 
     | "block.start", 0 => some .blockStart | "block.end", 0 => some .blockEnd
     | "auto", 1 => some .auto | "autowk", 1 => some .autoWk | "autodrop", 1 => some .autoDrop
     | "deadlock", 0 => some .deadlock | "@panic", 0 => some .panicAt
+    | "det", 1 => some (if none' then .detachNone else .detach) | "detdrop", 1 => some .detachDrop
     | "us.new", 2 => some .usNew | "us.read", 2 => some .usRead | "us.write", 2 => some .usWrite
     | "us.cancel-read", 2 => some .usCancelRead | "us.cancel-write", 2 => some .usCancelWrite
     | "us.drop-r", 1 => some .usDropR | "us.drop-w", 1 => some .usDropW
